@@ -75,13 +75,13 @@ type Cert struct {
 	Pool   int   `json:"pool,omitempty"`   // pool index for CPoolReg / CPoolRetire
 }
 
-// reference input: script kind 0 none, 1 PlutusV1, 2 PlutusV2, 3 PlutusV3, 4 native
+// reference input: script kind 0 none, 1 PlutusV1, 2 PlutusV2, 3 PlutusV3, 4 native, 5 = the UTxO has no Output at all
 type RefInput struct {
 	Resolved bool `json:"resolved"`
 	Script   int  `json:"script"`
 }
 
-// pool oracle entry: 0 = not registered, 1 = registered, 2 = lookup error
+// pool oracle entries: see the Pool* constants in mock.go
 type Tx struct {
 	Era         Era        `json:"era"`
 	Inputs      []Input    `json:"inputs"`
